@@ -219,6 +219,10 @@ def binop(I, ctx, op, a, b):
     if isinstance(op, ast.Mult):
         if isinstance(a, ListVal) and isinstance(b, int):
             return ListVal(a.items * b)
+        if isinstance(a, ListVal) and len(a.items) == 1 and isinstance(b, Sym) and b.kind == "int":
+            # [x] * n for a symbolic n: n references to x (none for n <= 0)
+            n = smt.simp(z3.If(b.e > 0, b.e, 0))
+            return SymList(SeqVal(n, lambda i, x=a.items[0]: x, "repeat"))
         if isinstance(a, str) and isinstance(b, int):
             return a * b
     if isinstance(op, ast.Mod) and isinstance(a, str):
